@@ -401,7 +401,11 @@ func runC19(k c19Case) (res c19Result) {
 	}
 	// goroutines started by go statements
 	want := 0
-	for i := 0; i < 40 && want >= 0; i++ {
+	maxWait := 0
+	if strings.Contains(k.source(), "go ") {
+		maxWait = 40
+	}
+	for i := 0; i < maxWait; i++ {
 		rec.mu.Lock()
 		n := len(rec.called)
 		rec.mu.Unlock()
